@@ -51,7 +51,7 @@ func (Prop) Describe(t vp.Tier) vp.Description {
 			"the value obtained by load is observed through golua's own compiler; the independent literal reader guards against an output that only golua's lexer accepts",
 			"held on the argument tuples enumerated/sampled, not on all formats x values",
 		},
-		Floor: map[vp.Tier]int64{vp.Quick: 60000, vp.Thorough: 1000000}[t],
+		Floor: map[vp.Tier]int64{vp.Quick: 150000, vp.Thorough: 2000000}[t],
 	}
 }
 
@@ -73,6 +73,7 @@ type env struct {
 	quoteChunk, tostringChunk                    rt.Value
 	calls                                        int
 	seen                                         map[string]bool
+	samples                                      int
 }
 
 const quoteSrc = `local v = ...
@@ -185,6 +186,17 @@ func (e *env) violation(kind, sig, detail, in string) {
 	}
 	e.seen[k] = true
 	e.c.Violation(kind, sig, detail, in)
+}
+
+// wantSample limits the written-out samples to batch 0 and n per stage so that
+// the evidence file shows cases of every stage.
+func (e *env) wantSample(n int) bool {
+	return e.c.Batch == 0 && e.samples < n && e.c.WantSample()
+}
+
+func (e *env) sample(x interface{}) {
+	e.samples++
+	e.c.Sample(x)
 }
 
 func (e *env) hookReports(in string) {
